@@ -10,6 +10,7 @@
 #include <cstdlib>
 #include <cstring>
 #include <ctime>
+#include <dlfcn.h>
 #include <fcntl.h>
 #include <sys/mman.h>
 #include <sys/time.h>
@@ -73,6 +74,24 @@ extern "C" {
     uint64_t n = nowNs();
     if (ts) { ts->tv_sec = n / 1000000000ull; ts->tv_nsec = n % 1000000000ull; }
     return 0;
+  }
+
+  // fork(): the kernel's entropy source hands different bytes to parent and child, so must the simulated one -
+  // the child's stream is re-keyed by its position in the parent's fork order (deterministic); everything else in
+  // user space (e.g. a seeded generator object) is inherited, as with the real call
+  pid_t fork(void) {
+    typedef pid_t (*fork_t)(void);
+    static fork_t realFork = (fork_t) dlsym(RTLD_NEXT, "fork");
+    static uint64_t forks = 0;
+    init();
+    ++forks;
+    pid_t p = realFork();
+    if (p == 0) {
+      entropyKey = splitmix(entropyKey ^ (forks * 0xD6E8FEB86659FD93ull));
+      entropyCalls = 0;
+      forks = 0;
+    }
+    return p;
   }
 
   // unsigned int std::random_device::_M_getval()
